@@ -71,10 +71,11 @@ KANI = {
         K("c06::p_c06_lexicase_empty", "empty population, 0..=2 cases", "Lexicase"),
         K("c06::p_c06_lexicase_missing", "2 individuals without results, 1 configured case", "Lexicase MissingTestCase"),
         K("c06::p_c06_lexicase_single", "1 individual, 0..=2 cases", "Lexicase"),
+        K("c06::p_c06_lexicase_ragged", "2 individuals, the second without results, 1 configured case", "Lexicase MissingTestCase (ragged)"),
         K("c06::p_c06_lexicase_one_case", "2 individuals x 1 case (the most CBMC can carry), all i64 errors", "Lexicase"),
         K("c06::p_c06_weighted", "all u32 weights; member fails on command", "Weighted"),
         K("c06::p_c06_weighted_pair", "all u32 weights; members fail on command; " + RNG, "WeightedPair"),
-        K("c06::p_c06_dyn_weighted", "3 members, weights 0..=3; " + RNG, "DynWeighted"),
+        K("c06::p_c06_dyn_weighted", "3 members, weights from {0,1,2,3,2^32}; " + RNG, "DynWeighted"),
         K("c06::p_c06_erased_and_ref", "population size <= 2", "Box<dyn DynSelector>, &S"),
         K("c06::p_c06_best_worst_n5", "population size <= 5", "Best / Worst", "thorough"),
         K("c06::p_c06_random_n5", "population size <= 5", "Random", "thorough"),
@@ -101,7 +102,7 @@ KANI = {
         K("c13::p_c13_nested_right", "all word pairs; weights from the representative set", "(A,(B,C)): outer coin wa/total, inner wb/(wb+wc)"),
         K("c06::p_c06_weighted", "all u32 weights", "Weighted: weight 0 => ZeroWeight, no randomness consumed"),
         K("c06::p_c06_weighted_pair", "all u32 weights; members fail on command; " + RNG, "WeightedPair errors identify the member"),
-        K("c06::p_c06_dyn_weighted", "3 members, weights 0..=3; " + RNG, "DynWeighted: one member used, never a zero-weight one; all-zero => ZeroWeightSum"),
+        K("c06::p_c06_dyn_weighted", "3 members, weights from {0,1,2,3,2^32}; " + RNG, "DynWeighted: one member used, never a zero-weight one; all-zero => ZeroWeightSum"),
     ],
     "C14": [
         K("c14::p_c14_then", "all inputs / words / failure positions (loop-free)", "Then", complete=True),
@@ -128,9 +129,11 @@ KANI = {
         K("c16::p_c16_variation", "genome length 2-3; 6 symbolic words", "TwoPointXo, UniformXo, WithRate twice", entropy_guard=True),
         K("c16::p_c16_generators", "sizes 2-3; 6 symbolic words", "Bitstring::random*, OneOfCloning, collection generator, IndividualGenerator twice", entropy_guard=True),
         K("c16::p_c16_umad", "parent length 1", "Umad twice", "thorough", entropy_guard=True),
+        K("c16::p_c16_umad_empty", "empty parent, empty-addition rate 1", "Umad's empty-genome branch twice", entropy_guard=True),
     ],
     "C17": [
-        K("c17::p_c17_selector", "population 2; probe draws 0..=2 words, fails on command; 7 pointer kinds x 4 auto-trait sets", "DynSelector"),
+        K("c17::p_c17_selector", "population 2; probe draws through next_u32 / next_u64 / fill_bytes (0, 1 or 5 words), fails on command; 7 pointer kinds x 4 auto-trait sets", "DynSelector"),
+        K("c17::p_c17_selector_empty", "empty population", "DynSelector: error, not panic"),
         K("c17::p_c17_mutator", "as above", "DynMutator"),
         K("c17::p_c17_recombinator", "as above", "DynRecombinator"),
         K("c17::p_c17_operator", "as above", "DynOperator"),
@@ -151,14 +154,87 @@ KANI = {
     ],
     "C19": [
         K("c19::p_c19_sizes", "all usize sizes / step limits; 4 call orders (loop-free)", "with_max_stack_size / with_<stack>_max_size / with_instruction_step_limit on the real PushState builder", complete=True),
-        K("c19::p_c19_values", "3 int, 2 bool, 1 float value; maximum 0..=3", "with_<stack>_values: first supplied on top, overflow; generated accessors"),
-        K("c19::p_c19_program", "2 program elements; maximum 0..=3", "with_program: first element executes first, overflow"),
-        K("c19::p_c19_inputs", "2 named inputs, two declaration orders", "with_<stack>_input order independence (state equality)"),
+        K("c19::p_c19_values_int", "3 int values; maximum 0..=3", "with_int_values: first supplied on top, overflow; generated accessors"),
+        K("c19::p_c19_values_bool_float", "2 bool, 1 float value; maximum 2", "with_bool_values / with_float_values; generated accessors"),
+        K("c19::p_c19_inputs", "2 named inputs, two declaration orders", "with_<stack>_input order independence (state equality)", "thorough"),
+    ],
+    "PUSH": [
+        K("c01::p_c01_int_add", "lean state (real Stack<T>s), one operand short and one spare beneath, maxima depth..=depth+1, all operand values", "int instruction add", "quick", panic_props=["C03"]),
+        K("c01::p_c01_int_subtract", "lean state (real Stack<T>s), one operand short and one spare beneath, maxima depth..=depth+1, all operand values", "int instruction subtract", "quick", panic_props=["C03"]),
+        K("c01::p_c01_int_multiply", "lean state (real Stack<T>s), one operand short and one spare beneath, maxima depth..=depth+1, all operand values (representative operands for * / % pow)", "int instruction multiply", "thorough", panic_props=["C03"]),
+        K("c01::p_c01_int_divide", "lean state (real Stack<T>s), one operand short and one spare beneath, maxima depth..=depth+1, all operand values (representative operands for * / % pow)", "int instruction divide", "quick", panic_props=["C03"]),
+        K("c01::p_c01_int_mod", "lean state (real Stack<T>s), one operand short and one spare beneath, maxima depth..=depth+1, all operand values (representative operands for * / % pow)", "int instruction mod", "quick", panic_props=["C03"]),
+        K("c01::p_c01_int_power", "lean state (real Stack<T>s), one operand short and one spare beneath, maxima depth..=depth+1, all operand values (representative operands for * / % pow)", "int instruction power", "quick", panic_props=["C03"]),
+        K("c01::p_c01_int_square", "lean state (real Stack<T>s), one operand short and one spare beneath, maxima depth..=depth+1, all operand values (representative operands for * / % pow)", "int instruction square", "thorough", panic_props=["C03"]),
+        K("c01::p_c01_int_inc", "lean state (real Stack<T>s), one operand short and one spare beneath, maxima depth..=depth+1, all operand values", "int instruction inc", "thorough", panic_props=["C03"]),
+        K("c01::p_c01_int_dec", "lean state (real Stack<T>s), one operand short and one spare beneath, maxima depth..=depth+1, all operand values", "int instruction dec", "thorough", panic_props=["C03"]),
+        K("c01::p_c01_int_min", "lean state (real Stack<T>s), one operand short and one spare beneath, maxima depth..=depth+1, all operand values", "int instruction min", "thorough", panic_props=["C03"]),
+        K("c01::p_c01_int_max", "lean state (real Stack<T>s), one operand short and one spare beneath, maxima depth..=depth+1, all operand values", "int instruction max", "thorough", panic_props=["C03"]),
+        K("c01::p_c01_int_negate", "lean state (real Stack<T>s), one operand short and one spare beneath, maxima depth..=depth+1, all operand values", "int instruction negate", "quick", panic_props=["C03"]),
+        K("c01::p_c01_int_abs", "lean state (real Stack<T>s), one operand short and one spare beneath, maxima depth..=depth+1, all operand values", "int instruction abs", "thorough", panic_props=["C03"]),
+        K("c01::p_c01_int_clamp", "lean state (real Stack<T>s), one operand short and one spare beneath, maxima depth..=depth+1, all operand values", "int instruction clamp", "quick", panic_props=["C03"]),
+        K("c01::p_c01_int_is_zero", "lean state (real Stack<T>s), one operand short and one spare beneath, maxima depth..=depth+1, all operand values", "int instruction is_zero", "thorough", panic_props=["C03"]),
+        K("c01::p_c01_int_is_positive", "lean state (real Stack<T>s), one operand short and one spare beneath, maxima depth..=depth+1, all operand values", "int instruction is_positive", "thorough", panic_props=["C03"]),
+        K("c01::p_c01_int_is_negative", "lean state (real Stack<T>s), one operand short and one spare beneath, maxima depth..=depth+1, all operand values", "int instruction is_negative", "thorough", panic_props=["C03"]),
+        K("c01::p_c01_int_is_even", "lean state (real Stack<T>s), one operand short and one spare beneath, maxima depth..=depth+1, all operand values", "int instruction is_even", "thorough", panic_props=["C03"]),
+        K("c01::p_c01_int_is_odd", "lean state (real Stack<T>s), one operand short and one spare beneath, maxima depth..=depth+1, all operand values", "int instruction is_odd", "quick", panic_props=["C03"]),
+        K("c01::p_c01_int_equal", "lean state (real Stack<T>s), one operand short and one spare beneath, maxima depth..=depth+1, all operand values", "int instruction equal", "quick", panic_props=["C03"]),
+        K("c01::p_c01_int_not_equal", "lean state (real Stack<T>s), one operand short and one spare beneath, maxima depth..=depth+1, all operand values", "int instruction not_equal", "thorough", panic_props=["C03"]),
+        K("c01::p_c01_int_lt", "lean state (real Stack<T>s), one operand short and one spare beneath, maxima depth..=depth+1, all operand values", "int instruction lt", "quick", panic_props=["C03"]),
+        K("c01::p_c01_int_le", "lean state (real Stack<T>s), one operand short and one spare beneath, maxima depth..=depth+1, all operand values", "int instruction le", "thorough", panic_props=["C03"]),
+        K("c01::p_c01_int_gt", "lean state (real Stack<T>s), one operand short and one spare beneath, maxima depth..=depth+1, all operand values", "int instruction gt", "thorough", panic_props=["C03"]),
+        K("c01::p_c01_int_ge", "lean state (real Stack<T>s), one operand short and one spare beneath, maxima depth..=depth+1, all operand values", "int instruction ge", "thorough", panic_props=["C03"]),
+        K("c01::p_c01_int_from_boolean", "lean state (real Stack<T>s), one operand short and one spare beneath, maxima depth..=depth+1, all operand values", "int instruction from_boolean", "quick", panic_props=["C03"]),
+        K("c01::p_c01_int_pop", "lean state (real Stack<T>s), one operand short and one spare beneath, maxima depth..=depth+1, all operand values", "int instruction pop", "thorough", panic_props=["C03"]),
+        K("c01::p_c01_int_dup", "lean state (real Stack<T>s), one operand short and one spare beneath, maxima depth..=depth+1, all operand values", "int instruction dup", "quick", panic_props=["C03"]),
+        K("c01::p_c01_int_swap", "lean state (real Stack<T>s), one operand short and one spare beneath, maxima depth..=depth+1, all operand values", "int instruction swap", "quick", panic_props=["C03"]),
+        K("c01::p_c01_int_is_empty", "lean state (real Stack<T>s), one operand short and one spare beneath, maxima depth..=depth+1, all operand values", "int instruction is_empty", "thorough", panic_props=["C03"]),
+        K("c01::p_c01_int_depth", "lean state (real Stack<T>s), one operand short and one spare beneath, maxima depth..=depth+1, all operand values", "int instruction depth", "thorough", panic_props=["C03"]),
+        K("c01::p_c01_int_flush", "lean state (real Stack<T>s), one operand short and one spare beneath, maxima depth..=depth+1, all operand values", "int instruction flush", "thorough", panic_props=["C03"]),
+        K("c01::p_c01_int_push", "lean state (real Stack<T>s), one operand short and one spare beneath, maxima depth..=depth+1, all operand values", "int instruction push", "thorough", panic_props=["C03"]),
+        K("c01::p_c01_bool_pop", "lean state (real Stack<T>s), one operand short and one spare beneath, maxima depth..=depth+1, all operand values", "bool instruction pop", "thorough", panic_props=["C03"]),
+        K("c01::p_c01_bool_push", "lean state (real Stack<T>s), one operand short and one spare beneath, maxima depth..=depth+1, all operand values", "bool instruction push", "thorough", panic_props=["C03"]),
+        K("c01::p_c01_bool_dup", "lean state (real Stack<T>s), one operand short and one spare beneath, maxima depth..=depth+1, all operand values", "bool instruction dup", "thorough", panic_props=["C03"]),
+        K("c01::p_c01_bool_swap", "lean state (real Stack<T>s), one operand short and one spare beneath, maxima depth..=depth+1, all operand values", "bool instruction swap", "thorough", panic_props=["C03"]),
+        K("c01::p_c01_bool_is_empty", "lean state (real Stack<T>s), one operand short and one spare beneath, maxima depth..=depth+1, all operand values", "bool instruction is_empty", "thorough", panic_props=["C03"]),
+        K("c01::p_c01_bool_depth", "lean state (real Stack<T>s), one operand short and one spare beneath, maxima depth..=depth+1, all operand values", "bool instruction depth", "thorough", panic_props=["C03"]),
+        K("c01::p_c01_bool_flush", "lean state (real Stack<T>s), one operand short and one spare beneath, maxima depth..=depth+1, all operand values", "bool instruction flush", "thorough", panic_props=["C03"]),
+        K("c01::p_c01_bool_print", "lean state (real Stack<T>s), one operand short and one spare beneath, maxima depth..=depth+1, all operand values", "bool instruction print", "thorough", panic_props=["C03"]),
+        K("c01::p_c01_bool_println", "lean state (real Stack<T>s), one operand short and one spare beneath, maxima depth..=depth+1, all operand values", "bool instruction println", "quick", panic_props=["C03"]),
+        K("c01::p_c01_bool_not", "lean state (real Stack<T>s), one operand short and one spare beneath, maxima depth..=depth+1, all operand values", "bool instruction not", "thorough", panic_props=["C03"]),
+        K("c01::p_c01_bool_or", "lean state (real Stack<T>s), one operand short and one spare beneath, maxima depth..=depth+1, all operand values", "bool instruction or", "thorough", panic_props=["C03"]),
+        K("c01::p_c01_bool_and", "lean state (real Stack<T>s), one operand short and one spare beneath, maxima depth..=depth+1, all operand values", "bool instruction and", "quick", panic_props=["C03"]),
+        K("c01::p_c01_bool_xor", "lean state (real Stack<T>s), one operand short and one spare beneath, maxima depth..=depth+1, all operand values", "bool instruction xor", "thorough", panic_props=["C03"]),
+        K("c01::p_c01_bool_implies", "lean state (real Stack<T>s), one operand short and one spare beneath, maxima depth..=depth+1, all operand values", "bool instruction implies", "quick", panic_props=["C03"]),
+        K("c01::p_c01_bool_from_int", "lean state (real Stack<T>s), one operand short and one spare beneath, maxima depth..=depth+1, all operand values", "bool instruction from_int", "quick", panic_props=["C03"]),
+        K("c01::p_c01_float_equal", "lean state (real Stack<T>s), one operand short and one spare beneath, maxima depth..=depth+1, all operand values", "float instruction equal", "quick", panic_props=["C03"]),
+        K("c01::p_c01_float_not_equal", "lean state (real Stack<T>s), one operand short and one spare beneath, maxima depth..=depth+1, all operand values", "float instruction not_equal", "thorough", panic_props=["C03"]),
+        K("c01::p_c01_float_gt", "lean state (real Stack<T>s), one operand short and one spare beneath, maxima depth..=depth+1, all operand values", "float instruction gt", "thorough", panic_props=["C03"]),
+        K("c01::p_c01_float_lt", "lean state (real Stack<T>s), one operand short and one spare beneath, maxima depth..=depth+1, all operand values", "float instruction lt", "quick", panic_props=["C03"]),
+        K("c01::p_c01_float_ge", "lean state (real Stack<T>s), one operand short and one spare beneath, maxima depth..=depth+1, all operand values", "float instruction ge", "thorough", panic_props=["C03"]),
+        K("c01::p_c01_float_le", "lean state (real Stack<T>s), one operand short and one spare beneath, maxima depth..=depth+1, all operand values", "float instruction le", "thorough", panic_props=["C03"]),
+        K("c01::p_c01_float_pop", "lean state (real Stack<T>s), one operand short and one spare beneath, maxima depth..=depth+1, all operand values", "float instruction pop", "thorough", panic_props=["C03"]),
+        K("c01::p_c01_float_push", "lean state (real Stack<T>s), one operand short and one spare beneath, maxima depth..=depth+1, all operand values", "float instruction push", "thorough", panic_props=["C03"]),
+        K("c01::p_c01_float_dup", "lean state (real Stack<T>s), one operand short and one spare beneath, maxima depth..=depth+1, all operand values", "float instruction dup", "thorough", panic_props=["C03"]),
+        K("c01::p_c01_float_swap", "lean state (real Stack<T>s), one operand short and one spare beneath, maxima depth..=depth+1, all operand values", "float instruction swap", "thorough", panic_props=["C03"]),
+        K("c01::p_c01_float_is_empty", "lean state (real Stack<T>s), one operand short and one spare beneath, maxima depth..=depth+1, all operand values", "float instruction is_empty", "thorough", panic_props=["C03"]),
+        K("c01::p_c01_float_depth", "lean state (real Stack<T>s), one operand short and one spare beneath, maxima depth..=depth+1, all operand values", "float instruction depth", "thorough", panic_props=["C03"]),
+        K("c01::p_c01_float_flush", "lean state (real Stack<T>s), one operand short and one spare beneath, maxima depth..=depth+1, all operand values", "float instruction flush", "thorough", panic_props=["C03"]),
+        K("c01::p_c01_float_from_int", "lean state (real Stack<T>s), one operand short and one spare beneath, maxima depth..=depth+1, all operand values", "float instruction from_int", "quick", panic_props=["C03"]),
+        K("c01::p_c01_float_add", "lean state (real Stack<T>s), one operand short and one spare beneath, maxima depth..=depth+1, all operand values", "float instruction add", "thorough", panic_props=["C03"]),
+        K("c01::p_c01_float_subtract", "lean state (real Stack<T>s), one operand short and one spare beneath, maxima depth..=depth+1, all operand values", "float instruction subtract", "quick", panic_props=["C03"]),
+        K("c01::p_c01_float_divide", "lean state (real Stack<T>s), one operand short and one spare beneath, maxima depth..=depth+1, all operand values", "float instruction divide", "quick", panic_props=["C03"]),
+    ],
+    "C05": [
+        K("c05::p_c05_num_opens", "all six instruction kinds used by the parser harness", "NumOpens: DupBlock / When / Unless = 1, IfElse = 2, others 0"),
     ],
     "C04": [
         K("c04::p_c04_bulk", "prior depth 0..=2, 0..=3 items, maximum depth-1..=depth+1 (also below the current size), exact-size and plain iterators", "Stack::push_many / TryExtend::try_extend"),
-        K("c04::p_c04_ops", "one symbolic operation at every depth 0..=4, maximum depth-1..=depth+1, against a reference LIFO model", "whole public Stack API"),
-        K("c04::p_c04_two_ops", "two symbolic operations from depth 2", "whole public Stack API", "thorough"),
+        K("c04::p_c04_ops_d0", "one symbolic operation at depth 0, maximum 0..=1, against a reference LIFO model", "whole public Stack API"),
+        K("c04::p_c04_ops_d1", "one symbolic operation at depth 1, maximum 0..=2", "whole public Stack API"),
+        K("c04::p_c04_ops_d2", "one symbolic operation at depth 2, maximum 1..=3", "whole public Stack API"),
+        K("c04::p_c04_ops_d3", "one symbolic operation at depth 3, maximum 2..=4", "whole public Stack API"),
+        K("c04::p_c04_ops_d4", "one symbolic operation at depth 4, maximum 3..=5", "whole public Stack API", "thorough"),
     ],
 }
 KANI_ASSUME = ["rand 0.9 is executed, not modelled; uniformity of its words and of its sampling algorithms (choose, choose_multiple, shuffle, Uniform, choose_weighted) is assumed",
@@ -167,20 +243,20 @@ KANI_EXPL = "Kani/CBMC on the real compiled crates with a symbolic random stream
 
 PROPS = {
     "C01": {
-        "templates": PUSH, "expand": True, "extern": True, "steps": [run_verus_property], "level": "proof",
+        "templates": PUSH, "expand": True, "extern": True, "steps": [run_verus_property, run_kani_property], "kani": KANI["PUSH"], "level": "proof",
         "explanation": "post of every instruction = total spec function on the abstract state (SV), written from the property text; Verus proves the "
                        "real perform() bodies (extracted from /repo on this run) against it for all values, depths and capacities; per-variant "
                        "obligation split localises a failing instruction.",
         "assumptions": PUSH_ASSUME,
     },
     "C02": {
-        "templates": PUSH, "expand": True, "extern": True, "steps": [run_verus_property], "level": "proof",
+        "templates": PUSH, "expand": True, "extern": True, "steps": [run_verus_property, run_kani_property], "kani": KANI["PUSH"], "level": "proof",
         "explanation": "the failure clause of every L1/L2 contract: on Err the carried state is view-identical to the input state (all stacks, "
                        "capacities, output, inputs, step limit), Recoverable vs Fatal as prescribed; TryRecover maps Recoverable to the carried state.",
         "assumptions": PUSH_ASSUME,
     },
     "C03": {
-        "templates": PUSH, "expand": True, "extern": True, "steps": [run_verus_property], "level": "proof",
+        "templates": PUSH, "expand": True, "extern": True, "steps": [run_verus_property, run_kani_property], "kani": KANI["PUSH"], "level": "proof",
         "explanation": "wf (every stack within its maximum) is preserved by every instruction outcome, fatal errors are only StackError::Overflow, "
                        "and Verus' own obligations (no arithmetic overflow, no out-of-bounds index, unreachable!() proved unreachable, termination "
                        "of every loop) hold on the extracted bodies.",
@@ -188,7 +264,7 @@ PROPS = {
     },
     "C05": {
         "templates": PRELUDE + STD + STACK + PUSH_L1 + PUSH_L2 + ["70_parser.vrs"] + MAIN, "expand": True, "extern": True,
-        "steps": [run_verus_property], "level": "proof",
+        "steps": [run_verus_property, run_kani_property], "kani": KANI["C05"], "level": "proof",
         "explanation": "parse_from_plushy (instantiated at vec::IntoIter<PushGene>) is proved equal to an independent recursive-descent reference "
                        "parser (parse_seq/parse_blocks) with termination; lemmas over the reference parser prove the declarative reading: depth-first "
                        "flattening == the genome's instruction sequence, every instruction opening k blocks is followed by exactly k well-shaped blocks, "
@@ -198,7 +274,7 @@ PROPS = {
     },
     "C04": {
         "templates": PRELUDE + STD + STACK + MAIN, "extern": True,
-        "steps": [run_verus_property], "kani": KANI["C04"],
+        "steps": [run_verus_property, run_kani_property], "kani": KANI["C04"],
         "level": "proof",
         "explanation": "Total functional contracts on the real bodies of Stack<T>::{set_max_stack_size,max_stack_size,size,is_empty,"
                        "is_full,top,top2,top3,pop,pop2,pop3,discard,push} (generic T, unbounded length, every capacity); the history "
@@ -223,3 +299,28 @@ PROPS["C15"] = {"templates": PRELUDE + ["80_ec_order.vrs"] + MAIN, "expand": ["e
                                "spec functions stated over the payload's own order (generic T), with lemmas that lawfulness is inherited; Kani: the compiled orderings at T = i64 "
                                "(complete) and the aggregation / scoring functions.",
                 "assumptions": KANI_ASSUME + ["vstd's PartialEqSpec / PartialOrdSpec / OrdSpec describe the payload's order", "Ordering::reverse contract (assumed)"]}
+
+# C13: Verus for the build-time arithmetic (generic members) + the Kani harnesses for the coin / delegation
+PROPS["C13"] = {"templates": PRELUDE + ["82_ec_weighted.vrs"] + MAIN, "extern": True, "steps": [run_verus_property, run_kani_property], "level": "proof",
+                "kani": KANI["C13"],
+                "explanation": "Verus: WeightedPair::new, Weighted::new, weight(), and the two non-Result with_weighted_item impls are proved (generic members, all u32) to reject "
+                               "exactly the totals that do not fit, to expose the exact sum and to build the coin a/(a+b) (rand's Bernoulli::from_ratio contract assumed); Kani: the real "
+                               "rand coin and the delegation, see `bounded`.",
+                "assumptions": KANI_ASSUME + ["Bernoulli::from_ratio(n, d) fails exactly for n > d or d == 0 and otherwise yields the n/d coin (assumed; executed, not modelled, by the Kani harnesses)"]}
+
+# C14: Verus for the combinators (generic parts, any nesting depth) + the Kani harnesses (Vec / RepeatWith, error display, stream positions)
+PROPS["C14"] = {"templates": PRELUDE + ["84_ec_operators.vrs"] + MAIN, "extern": True, "steps": [run_verus_property, run_kani_property], "level": "proof",
+                "kani": KANI["C14"],
+                "explanation": "Verus: every operator is specified as a function op(input, stream state) -> (result, stream state); the real apply() bodies of Then, And, Map over a pair, "
+                               "Identity, Constant, Mutate, Recombine and the by-reference impls are proved against compositional spec functions for arbitrary parts, so any nesting depth "
+                               "follows by construction; Kani: Map over array / Vec, RepeatWith, GenomeScorer, error display, see `bounded`.",
+                "assumptions": KANI_ASSUME + ["an arbitrary part satisfies the Operator contract (is a function of its input and the stream state) — the contract every combinator is proved to preserve",
+                                              "Clone::clone returns a value equal to the original (axiom_clone_is_copy)"]}
+
+# C08: Verus proof of the real Lexicase::select (instantiated at Vec<EcIndividual<G, TestResults<Res>>>)
+PROPS["C08"] = {"templates": PRELUDE + ["86_ec_lexicase.vrs"] + MAIN, "expand": ["ec-core"], "extern": True, "steps": [run_verus_property], "level": "proof",
+                "explanation": "the real body of Lexicase::select is proved (two nested loop invariants) to return an individual of lex_run(population, pi): the candidates left after "
+                               "filtering, case by case in the shuffled order pi, down to those with a best result on that case; EmptyPopulation / MissingTestCase exactly as prescribed.",
+                "assumptions": ["SliceRandom::shuffle returns a permutation of its input determined by the stream state (vx_shuffle stand-in whose body is that call); that every permutation is equally likely is rand's contract",
+                                "the result type's order is a lawful total order (precondition `lawful::<Res>()`; inherited by Score / Error from their payload, C15)",
+                                "vstd's models of Vec, slices (split_first, first, get, is_empty), ranges/collect, mem::swap and for-loops over them; Option::copied contract"]}
